@@ -3,6 +3,9 @@ import FindVerif.Spec.Grammar
 import FindVerif.Spec.Scheme.Read
 import FindVerif.Spec.Vocab
 import FindVerif.Spec.Options
+import FindVerif.Spec.Supported
+import FindVerif.Spec.Actions
+import FindVerif.Spec.Scheme.Analysis
 /-
   Property predicates evaluated on the IMPLEMENTATION's observation (independent of whether the
   model agrees with it): `none` = holds, `some reason` = the implementation fails the property
@@ -257,6 +260,304 @@ def checkC13 (req : List String) (obs : String) : Option String :=
   | some want, .err v _ _ _ _ => if want = "any" then none else some s!"rejected ({v})"
   | _, _ => none
 
+/-! ### compile-side observations -/
+
+inductive ImplCompile where
+  | ok (t0 t1 : Nat) (map0 : String) (renders : List (Text × String))
+  | err (variant name : String)
+  | panic (stage : String)
+  | none
+
+def decodeRenders : List String → List (Text × String)
+  | p :: m :: rest => ((textOfHex p).getD [], m) :: decodeRenders rest
+  | _ => []
+
+def decodeCompile (obs : String) : ImplCompile :=
+  match ((splitBar obs).2).splitOn " " with
+  | "COK" :: t0 :: t1 :: m0 :: rest => .ok t0.toNat! t1.toNat! m0 (decodeRenders rest)
+  | "CERR" :: v :: n :: _ => .err v n
+  | "PANIC" :: st :: _ => .panic st
+  | _ => .none
+
+/-- The tree a compile request is about: from a `T` request, or from the parse part of the
+    implementation's observation of a `C` request. -/
+def treeOf (req : List String) (obs : String) : Option Expr :=
+  match stripAnnot req with
+  | "T" :: _ :: _ :: _ :: treeToks => (Sx.parse (" ".intercalate treeToks)).bind dExpr
+  | "C" :: _ =>
+    match decodeParse (splitBar obs).1 with
+    | .ok _ e => some e
+    | _ => none
+  | _ => none
+
+def readProgram (text : Text) : Option Scheme.Program := (Scheme.readAll text).bind Scheme.programOf
+
+/-! ### C12 -/
+
+def checkC12 (req : List String) (obs : String) : Option String :=
+  match treeOf req obs with
+  | none => none
+  | some e =>
+    -- trees with explicit-precedence / option nodes are outside the parser's range (C12 is stated for the others)
+    if !(Spec.plainB e) then none else
+    match Spec.firstUnsupported e, decodeCompile obs with
+    | some (k, n), .err v name =>
+      if v = k && name = n then none else some s!"error-names-wrong-construct want={k}({n}) got={v}({name})"
+    | some (k, n), .ok .. => some s!"unsupported-construct-compiled {k}({n})"
+    | none, .err v name => some s!"supported-expression-refused {v}({name})"
+    | none, .ok _ _ _ renders =>
+      if renders.any (fun r => Spec.isInfixT (cl!"UNIMPLEMENTED") r.1) then some "placeholder-emitted" else none
+    | _, .panic st => some ("panic " ++ st)
+    | _, .none => none
+
+/-! ### C04 / C20 / C11 / C09 / C10 / C16: on the read-back program -/
+
+def firstRender (obs : String) : Option Text :=
+  match decodeCompile obs with
+  | .ok _ _ _ ((p, _) :: _) => some p
+  | _ => none
+
+/-- File names of a destination table observation. -/
+def mapFileNames (m0 : String) : List Text :=
+  match Sx.parse (m0.replace "," " ") with
+  | some (.list (.atom "#" :: entries)) => entries.filterMap fun en => match en with
+    | .list [_, .list [.atom "File", n, _]] => dStr n
+    | _ => none
+  | _ => []
+
+def checkC04 (st : DState) (req : List String) (obs : String) : DState × Option String :=
+  match decodeCompile obs with
+  | .ok _ _ m0 ((text, _) :: _) =>
+    match Scheme.readAll text with
+    | none => (st, some "program-does-not-read-back")
+    | some forms =>
+      match Scheme.programOf forms with
+      | none => (st, some s!"not-the-two-expected-forms ({forms.length} forms)")
+      | some _ =>
+        let whole := Scheme.SExp.list forms
+        let leaves := Scheme.strLeaves whole
+        let wanted := (annotTexts req "strs").getD []
+        -- in framed mode a file name lives in the destination table, not in the program
+        let places := leaves ++ mapFileNames m0
+        if !(wanted.all fun w => places.any (· = w)) then (st, some "user-string-not-a-string-literal-with-that-value")
+        else if !(Scheme.formatCallsOk whole) then (st, some "format-template-directives-do-not-match-arguments")
+        else
+          -- same structure as the benign member of the group
+          match annot req "grp" with
+          | none => (st, none)
+          | some g =>
+            let key := toString (repr (Scheme.skeleton whole)) ++ " #" ++ toString leaves.length
+            match st.groups.find? (fun kv => kv.1 = g) with
+            | none => ({ st with groups := (g, key) :: st.groups.take 64 }, none)
+            | some (_, first) =>
+              if first = key then (st, none) else (st, some "user-string-changes-program-structure")
+  | .panic stg => (st, some ("panic " ++ stg))
+  | _ => (st, none)
+
+/-- C20: renders differ only in the device string, which decodes to the path given. -/
+def checkC20 (req : List String) (obs : String) : Option String :=
+  match stripAnnot req, decodeCompile obs with
+  | "C" :: _ :: hpaths, .ok _ _ m0 renders =>
+    let paths := hpaths.filterMap textOfHex
+    if renders.length ≠ paths.length then some "render-count" else
+    if !(renders.all fun r => r.2 = m0) then some "destination-table-changed-by-rendering" else
+    let progs := renders.map fun r => readProgram r.1
+    let zipped := paths.zip (renders.zip progs)
+    let bad := zipped.findSome? fun (path, (r, prog)) =>
+      match prog with
+      | none => some "render-does-not-read-back"
+      | some p =>
+        if p.device != Scheme.SExp.str path then some "device-string-does-not-decode-to-the-path"
+        else
+          -- everything but the device string equals the first render
+          match progs.head? with
+          | some (some p0) =>
+            if toString (repr { p with device := .str [] }) = toString (repr { p0 with device := .str [] }) then none
+            else some "renders-differ-outside-the-device-string"
+          | _ => some "first-render-does-not-read-back"
+    match bad with
+    | some b => some b
+    | none =>
+      -- same path twice gives identical text
+      let dup := zipped.findSome? fun (path, (r, _)) =>
+        zipped.findSome? fun (path', (r', _)) => if path = path' && r.1 ≠ r'.1 then some "same-path-different-text" else none
+      dup
+  | _, .panic stg => some ("panic " ++ stg)
+  | _, _ => none
+
+def checkC11 (obs : String) : Option String :=
+  match decodeCompile obs with
+  | .ok _ _ _ ((text, _) :: _) =>
+    match readProgram text with
+    | none => some "program-does-not-read-back"
+    | some p => Scheme.scopeProblem p
+  | .panic stg => some ("panic " ++ stg)
+  | _ => none
+
+/-- C09 (structure): the body is `(and E (print-relative-path))` exactly when the tree has no
+    action; otherwise nothing is added. -/
+def checkC09 (req : List String) (obs : String) : Option String :=
+  match treeOf req obs, decodeCompile obs with
+  | some e, .ok _ _ _ ((text, _) :: _) =>
+    match readProgram text with
+    | none => some "program-does-not-read-back"
+    | some p =>
+      let implicit := Scheme.SExp.list [.sym (cl!"print-relative-path")]
+      let wrapped := match p.body with
+        | .list [.sym a, _, last] => a = cl!"and" && last == implicit
+        | _ => false
+      let mentions := (Scheme.symbols p.body).any (· = cl!"print-relative-path")
+      if e.hasAction then
+        if mentions then some "implicit-print-added-despite-an-action" else none
+      else if wrapped then none else some "implicit-print-missing-or-misplaced"
+  | _, .panic stg => some ("panic " ++ stg)
+  | _, _ => none
+
+/-- Expected destination of an output action in framed mode. -/
+def targetOf (a : Action) : Option Target :=
+  match a with
+  | .print => some (.stdout (some '\n')) | .printNull => some (.stdout (some '\x00'))
+  | .printFormatted _ => some (.stdout none)
+  | .filePrint f => some (.file f (some '\n')) | .filePrintNull f => some (.file f (some '\x00'))
+  | .filePrintFormatted f _ => some (.file f none)
+  | _ => none
+
+def actionsOf : Expr → List Action
+  | .action a => [a]
+  | .prec e | .not e => actionsOf e
+  | .and a b | .or a b | .list a b => actionsOf a ++ actionsOf b
+  | _ => []
+
+def dedup {α} [DecidableEq α] : List α → List α
+  | [] => []
+  | x :: xs => if xs.any (· = x) then dedup xs else x :: dedup xs
+
+/-- C10 (structure): mode choice and destination table. -/
+def checkC10 (req : List String) (obs : String) : Option String :=
+  match treeOf req obs, decodeCompile obs with
+  | some e, .ok _ _ m0 ((text, _) :: _) =>
+    let framedWanted := e.complexFrames      -- oracle proved equal to Spec.NeedsFraming (Theorems/C19)
+    let framed : Bool := decide (m0 ≠ "none")
+    if framed != framedWanted then some s!"wrong-output-mode framed={framed} wanted={framedWanted}" else
+    if !framed then none else
+    match (Sx.parse (m0.replace "," " ")) with
+    | some (.list (.atom "#" :: entries)) =>
+      let targets : List String := entries.filterMap fun en => match en with
+        | .list [_, t] => some t.print
+        | _ => none
+      let keys : List String := entries.filterMap fun en => match en with
+        | .list [.atom k, _] => some k
+        | _ => none
+      let wanted := dedup ((actionsOf e).filterMap targetOf)
+      let wantedS := wanted.map fun t => (targetSx t).print
+      if hasDupS targets then some "two-tags-for-one-destination"
+      else if hasDupS keys then some "duplicate-tag"
+      else if !(wantedS.all fun w => targets.any (· = w)) then some "action-destination-missing-from-table"
+      else if !(targets.all fun t => wantedS.any (· = t)) then some "table-names-a-destination-no-action-has"
+      else
+        -- each printer lambda frames with its own tag, and that tag is a key of the table
+        match readProgram text with
+        | none => some "program-does-not-read-back"
+        | some p =>
+          let bad := p.bindings.findSome? fun (n, ini) =>
+            if isPrefix (cl!"%lf3:print:") n then
+              match ini with
+              | .list [.sym _, .list [.sym _], .list [.sym fr, .sym _, .chr c]] =>
+                if fr = cl!"%lf3:frame:2" && natToDec c = n.drop 11 && keys.any (· = toString c) then none
+                else some ("printer-tag-mismatch " ++ String.ofList n)
+              | _ => some ("printer-not-framing " ++ String.ofList n)
+            else none
+          bad
+    | _ => some "unreadable-destination-table"
+  | _, .panic stg => some ("panic " ++ stg)
+  | _, _ => none
+where
+  hasDupS : List String → Bool
+    | [] => false
+    | x :: xs => xs.any (· = x) || hasDupS xs
+
+/-- C16 (structure): every write to a shared port happens inside the mutex created with it. -/
+def checkC16 (obs : String) : Option String :=
+  match decodeCompile obs with
+  | .ok _ _ m0 ((text, _) :: _) =>
+    match readProgram text with
+    | none => some "program-does-not-read-back"
+    | some p =>
+      let sym (s : Text) := Scheme.SExp.sym s
+      if m0 ≠ "none" then
+        -- framed: the one frame procedure is the only place that displays, under the one mutex
+        let frameWant := Scheme.SExp.list [sym (cl!"lambda"), .list [sym (cl!"s"), sym (cl!"d")],
+          .list [sym (cl!"with-mutex"), sym (cl!"%lf3:mutex:1"),
+            .list [sym (cl!"display"), sym (cl!"s"), sym (cl!"%lf3:port:0")],
+            .list [sym (cl!"display"), .list [sym (cl!"string"), .chr 0x1e, sym (cl!"d")], sym (cl!"%lf3:port:0")]]]
+        let frameOk := p.bindings.any fun (n, ini) => n = cl!"%lf3:frame:2" && ini == frameWant
+        let mutexOk := p.bindings.any fun (n, ini) => n = cl!"%lf3:mutex:1" && ini == .list [sym (cl!"make-mutex")]
+        let displaysElsewhere := (p.bindings.filter (fun b => b.1 ≠ cl!"%lf3:frame:2")).any fun (_, ini) =>
+          (Scheme.symbols ini).any (· = cl!"display")
+        let bodyDisplays := (Scheme.symbols p.body).any (· = cl!"display")
+        if !frameOk then some "frame-procedure-not-well-locked"
+        else if !mutexOk then some "frame-mutex-not-a-mutex"
+        else if displaysElsewhere || bodyDisplays then some "write-outside-the-frame-procedure"
+        else none
+      else
+        -- plain: every printer is (make-printer port mutex term) with the mutex created for that port
+        let bad := p.bindings.findSome? fun (n, ini) =>
+          match ini with
+          | .list (.sym mp :: args) =>
+            if mp = cl!"make-printer" then
+              match args with
+              | [.sym port, .sym mutex, _] =>
+                let portN := port.drop 10
+                let mutexN := mutex.drop 11
+                if isPrefix (cl!"%lf3:port:") port && isPrefix (cl!"%lf3:mutex:") mutex
+                    && decVal mutexN = decVal portN + 1
+                    && (p.bindings.any fun b => b.1 = mutex && b.2 == .list [sym (cl!"make-mutex")]) then none
+                else some ("printer-mutex-not-the-ports-mutex " ++ String.ofList n)
+              | _ => some ("printer-shape " ++ String.ofList n)
+            else none
+          | _ => none
+        bad
+  | .panic stg => some ("panic " ++ stg)
+  | _ => none
+
+/-- C15: the embedded clock second(s) lie within the compile call. -/
+def clockProblem (obs : String) : Option String :=
+  match decodeCompile obs with
+  | .ok t0 t1 _ ((text, _) :: _) =>
+    match readProgram text with
+    | none => none
+    | some p =>
+      let secs : List Nat := (Scheme.sublists p.body).filterMap fun l => match l with
+        | [.sym m, .num n, .list [.sym f]] =>
+          if m = cl!"-" && (f = cl!"atime" || f = cl!"ctime" || f = cl!"mtime") then some n else none
+        | _ => none
+      if secs.all fun s => t0 ≤ s && s ≤ t1 then
+        (if (secs.zip secs.tail).all fun ab => ab.1 ≤ ab.2 then none else some "embedded-seconds-decrease")
+      else some s!"embedded-second-outside-the-compile-call [{t0},{t1}] {secs}"
+  | _ => none
+
+/-- C15 group key: the observation with clock readings replaced. -/
+def clockFree (obs : String) : String :=
+  match decodeCompile obs with
+  | .ok t0 t1 _ _ =>
+    let h0 := (hexOfText (toString t0).toList).drop 1
+    let h1 := (hexOfText (toString t1).toList).drop 1
+    (((obs.replace h0 "TT").replace h1 "TT").replace (toString t0) "T").replace (toString t1) "T"
+  | _ => obs
+
+def checkC15 (st : DState) (req : List String) (obs : String) : DState × Option String :=
+  match clockProblem obs with
+  | some p => (st, some p)
+  | none =>
+    match annot req "grp" with
+    | none => (st, none)
+    | some g =>
+      let key := clockFree obs
+      match st.groups.find? (fun kv => kv.1 = g) with
+      | none => ({ st with groups := (g, key) :: st.groups.take 256 }, none)
+      | some (_, first) =>
+        if first = key then (st, none) else (st, some "same-input-different-result")
+
 def propCheck (prop : String) (st : DState) (req : List String) (obs : String) : DState × Option String :=
   match prop, req with
   | "C01", "P" :: hx :: _ => (st, (textOfHex hx).bind fun input => checkC01 input obs)
@@ -273,6 +574,14 @@ def propCheck (prop : String) (st : DState) (req : List String) (obs : String) :
     match checkC13 req obs with
     | some why => (st, some why)
     | none => groupCheck prop st req obs
+  | "C12", _ => (st, checkC12 req obs)
+  | "C04", _ => checkC04 st req obs
+  | "C20", _ => (st, checkC20 req obs)
+  | "C11", _ => (st, checkC11 obs)
+  | "C09", _ => (st, checkC09 req obs)
+  | "C10", _ => (st, checkC10 req obs)
+  | "C16", _ => (st, checkC16 obs)
+  | "C15", _ => checkC15 st req obs
   | _, _ => (st, none)
 
 end FV
